@@ -38,5 +38,13 @@ for pid, p in props.items():
         extra = ("Look beyond the functions named above: helper functions, Display / Drop / Default impls, error paths, feature-gated code (sass, mime03, http-types), "
                  "the code that is copied into the generated crate (src/templates/*.rs), interactions between two public entry points called in sequence, "
                  "and behaviour that differs between the first and a later run into the same output directory are all fair game, as long as the change breaks THIS property. ")
+    if int(rnd) >= 4:
+        extra += ("Think about the edges of the input space as well: empty inputs and empty collections, a single element, very long inputs, names and contents that are not ASCII, "
+                  "names that contain the separators the code splits on, the same call made twice on one object, calls made in an unusual order, inputs that are almost but not quite "
+                  "what a special case tests for, and counters or lengths that only matter beyond some threshold. ")
+    if int(rnd) >= 5:
+        extra += ("Prefer changes whose effect is SILENT (the build succeeds, the generated code compiles, and only the behaviour or the bytes are wrong) over ones that make the build fail loudly; "
+                  "changes that depend on a combination of two conditions (for example a certain nesting together with a certain character, or a certain call order together with a certain file name); "
+                  "and changes in code that runs only for one of several equivalent ways of writing the same thing. ")
     open('/tmp/prompts%s/%s.txt' % (rnd, pid), 'w').write(tmpl.format(wt=wt, pid=pid, title=p['title'], statement=p['statement'], quant=p['quantifier']['text'], anchors=anchors, extra=extra))
 print("ok", len(props))
